@@ -28,6 +28,9 @@ class Num (N : Type) where
   neg : N → N
   lt  : N → N → Bool
   eq  : N → N → Bool
+  /-- `math.Mod` (IEEE remainder with the sign of the dividend); `none` when the result is not a
+      finite number (zero divisor, infinite operands) -/
+  fmod : N → N → Option N
   ofInt : Int → N
   /-- `some i` iff the number is integral and fits Go's `int64` (conversion is exact). -/
   toInt? : N → Option Int
